@@ -48,6 +48,7 @@ PROPS = {
     "C09": dict(suites={"world": dict(fields=["outcome", "probe", "ledger", "end", "driver-exception"],
                                       oracles=["mismatch_panics", "drop_once", "fail_preserves"])}),
     "C10": dict(suites={"plan": dict(fields=LAYOUT + ["maxthr"], oracles=["skip_justified", "max_threads"])}),
+    "C11": dict(suites={"pool": dict(fields=["pool-model", "builderr", "driver-exception"], oracles=["stage_serialised"])}),
     "C12": dict(suites={"plan": dict(fields=["tl", "tlorder", "sendable", "driver-exception"], oracles=["tl_order", "sendable", "sendable_preserves_plan"]),
                         "exec": dict(fields=XLAYOUT, oracles=["tl_on_caller", "inner_tl_on_caller", "tl_last"], kf1=True),
                         "async": dict(fields=["async_accept", "builderr", "level-plan", "driver-exception"],
